@@ -1469,7 +1469,9 @@ int __wrap(pthread_spin_lock)(pthread_spinlock_t *lock) {
   int ret;
   (void)_;
   if (myth_should_wrap_pthread()) {
-    ret = myth_spin_lock_body((myth_spinlock_t *)lock);
+    /* the body returns the number of failed attempts, not an error number */
+    myth_spin_lock_body((myth_spinlock_t *)lock);
+    ret = 0;
   } else {
     ret = real_pthread_spin_lock(lock);
   }
@@ -1483,7 +1485,12 @@ int __wrap(pthread_spin_trylock)(pthread_spinlock_t *lock) {
   int ret;
   (void)_;
   if (myth_should_wrap_pthread()) {
-    ret = myth_spin_trylock_body((myth_spinlock_t *)lock);
+    /* the body returns non-zero iff it acquired the lock */
+    if (myth_spin_trylock_body((myth_spinlock_t *)lock)) {
+      ret = 0;
+    } else {
+      ret = EBUSY;
+    }
   } else {
     ret = real_pthread_spin_trylock(lock);
   }
